@@ -24,3 +24,40 @@ package cluster
 //@   loop 2 invariant runningPointCount == shards[i].PointCount + int64(j - lastPointIndex)
 //@   loop 2 invariant j > lastPointIndex ==> runningPointCount <= maxShardPointCount && runningSize <= maxShardSize
 //@   loop 2 invariant runningSize >= 0 && runningSize <= 4611686018427387904
+
+// ---- routing (property C13) ----
+// score(key, server) = xxh(key + server); the owner of a key is a server of minimal score.
+
+//@ func RendezvousHash$1
+//@   property C13
+//@   pure
+//@   ensures (result < 0) == (a.Score < b.Score) && (result > 0) == (a.Score > b.Score)
+
+//@ func RendezvousHash
+//@   property C13
+//@   requires topK >= 0
+//@   ensures len(result) == min(topK, len(servers))
+//@   ensures forall(j, 0, len(result), exists(i, 0, len(servers), result[j] == servers[i]))
+//@   ensures forall(j, 0, len(result), forall(l, j+1, len(result), xxh(key + result[j]) <= xxh(key + result[l])))
+//@   ensures len(result) > 0 ==> forall(i, 0, len(servers), xxh(key + result[0]) <= xxh(key + servers[i]))
+//@   loop 1 invariant rangeindex >= -1 && rangeindex < len(servers) && len(scores) == len(servers)
+//@   loop 1 invariant forall(k, 0, rangeindex+1, scores[k].Server == servers[k] && scores[k].Score == xxh(key + servers[k]))
+//@   loop 2 invariant 0 <= i && i <= topK && len(res) == topK && topK <= len(scores)
+//@   loop 2 invariant forall(k, 0, i, res[k] == scores[k].Server)
+
+// Lemmas over the contract of RendezvousHash only (no code): o is an owner of key among S when it
+// is a member of S of minimal score. Under distinct scores (no 64-bit collision inside the server
+// set - stated assumption) the owner is unique, hence independent of the order of the list (L1);
+// adding a server moves a key only to the new server (L2); removing a server that is not the owner
+// moves nothing (L3).
+//@ spec member(S []string, o string) bool = exists(i, 0, len(S), S[i] == o)
+//@ spec isOwner(key string, S []string, o string) bool = member(S, o) && forall(i, 0, len(S), xxh(key + o) <= xxh(key + S[i]))
+//@ spec subset(A []string, B []string) bool = forall(i, 0, len(A), member(B, A[i]))
+//@ spec distinctScores(key string, S []string) bool = forall(i, 0, len(S), forall(j, 0, len(S), S[i] != S[j] ==> xxh(key + S[i]) != xxh(key + S[j])))
+
+//@ lemma owner_order_independent(key string, A []string, B []string, oa string, ob string): subset(A, B) && subset(B, A) && distinctScores(key, A) && isOwner(key, A, oa) && isOwner(key, B, ob) ==> oa == ob
+//@   property C13
+//@ lemma owner_after_add(key string, A []string, B []string, s string, oa string, ob string): subset(A, B) && member(B, s) && forall(i, 0, len(B), B[i] == s || member(A, B[i])) && distinctScores(key, B) && isOwner(key, A, oa) && isOwner(key, B, ob) ==> ob == oa || ob == s
+//@   property C13
+//@ lemma owner_after_remove(key string, A []string, B []string, s string, oa string, ob string): subset(B, A) && forall(i, 0, len(A), A[i] == s || member(B, A[i])) && distinctScores(key, A) && isOwner(key, A, oa) && isOwner(key, B, ob) && oa != s ==> ob == oa
+//@   property C13
